@@ -6,12 +6,21 @@ as a predicate on (target type, view, slot) that is independent of the reader mo
 of target `t` at slot `i` of `a` has to visit lies below the length of the array it belongs to (rows below the
 declared length, list / map / fixed-size elements and union / dictionary references below the child's length).
 
+At the LEAVES it also says where the bytes of a valid slot come from (`leafOK`): the offset pair of a Utf8 / Binary
+column lies inside the data buffer (`0 ≤ offsets[i] ≤ offsets[i+1] ≤ data length` — for a leaf also when the pair is
+empty: `BytesView::get` slices `data[start..end]` whatever its length), the descriptor of a Utf8View / BinaryView
+column is inline (length ≤ 12) or names a buffer the view HAS (`buffer index < number of buffers`) and a range inside
+THAT buffer (`offset + length ≤ its length`), row `i` of a FixedSizeBinary column lies inside the data (`0 ≤ n`,
+`(i+1)·n ≤ data length`); the same for the value slot a dictionary key designates.  A slot the bitmap marks null
+designates no bytes (`slotNull`: the readers return before they look at offsets or descriptor).
+
 It follows only what the target reads (a struct target visits the fields it names, a tuple the leading fields, an
-`Option` / `any` target stops at a null slot), it does not look at validity-bitmap sizes, UTF-8 or view descriptors
-(those are decided by `Spec.decodeAt`), and it accepts an empty element range wherever it lies (recorded known
-finding `C17-empty-range-beyond-child`).  Used by the `corrupt` suite (through `Driver/TouchRange.lean`) for reads
-that return `Ok` although `Spec.decodeAt` rejects the slot: if `touchOK` is false the result can only have been
-assembled from outside the designated ranges, whatever the uncorrupted view would have given.
+`Option` / `any` target stops at a null slot), it does not look at validity-bitmap sizes or UTF-8 (those are decided
+by `Spec.decodeAt`), and it accepts an empty ELEMENT range of a list / map column wherever it lies (recorded known
+finding `C17-empty-range-beyond-child`: lists and maps only, not the byte range of a leaf).  Used by the `corrupt`
+suite (through `Driver/TouchRange.lean`) for reads that return `Ok` although `Spec.decodeAt` rejects the slot: if
+`touchOK` is false the result can only have been assembled from outside the designated ranges, whatever the
+uncorrupted view would have given.
 
 Total: structural recursion over the array (`touchOK` with the helpers over `ArrFields` / `ArrUFields`); the target
 is a parameter that changes along the way (`peelTarget` removes the `newtype` / `Option` layers, which do not move
@@ -33,6 +42,27 @@ def slotNull (a : Arr) (i : Nat) : Bool :=
   | .null _ => true
   | .dictionary ks _ => (match isValid (validityOf ks) i with | .ok b => !b | .error _ => false)
   | a => (match isValid (validityOf a) i with | .ok b => !b | .error _ => false)
+
+/-- what a VALID slot `i` of a leaf column designates lies inside the buffer it names: the offset pair of a Utf8 /
+Binary column inside `data` (also when it is empty), the descriptor of a view column inline or inside a buffer the
+view has, row `i` of a FixedSizeBinary column inside `data`; nothing to say for the other leaves (the value of slot
+`i < length` is element `i` of the values) -/
+def leafOK : Arr → Nat → Bool
+  | .bytes _ _ offs data, i =>
+    decide (0 ≤ offs.getD i 0 ∧ offs.getD i 0 ≤ offs.getD (i + 1) 0 ∧ offs.getD (i + 1) 0 ≤ (data.length : Int))
+  | .bytesView _ _ views buffers, i =>
+    let desc := views.getD i 0
+    let len := desc % 4294967296
+    if len ≤ 12 then true
+    else
+      match buffers[(desc >>> 64) % 4294967296]? with
+      | none => false
+      | some buf => decide ((desc >>> 96) % 4294967296 + len ≤ buf.length)
+  | .fixedSizeBinary n _ data, i => decide (0 ≤ n ∧ (i + 1) * n.toNat ≤ data.length)
+  | _, _ => true
+
+/-- slot `i` of a leaf column: null (no bytes are designated), or what it designates is in range -/
+def leafSlotOK (a : Arr) (i : Nat) : Bool := slotNull a i || leafOK a i
 
 /-- `struct N(T)` and `Option<T>` read the same slot of the same array as `T`: the target below these layers, and
 whether an `Option` layer was passed (an `Option` target stops at a null slot) -/
@@ -136,13 +166,13 @@ def touchOK : Target → Arr → Nat → Bool
         else false
       | .dictionary ks vs =>
         (match decodeAt ks i with
-         | .ok (.int j) => 0 ≤ j && j.toNat < lenOf vs
+         | .ok (.int j) => 0 ≤ j && j.toNat < lenOf vs && leafSlotOK vs j.toNat
          | _ => true)
       | .union types offs fs =>
         (match indexOfTypeId (ArrUFields.ids fs) (types.getD i 0) with
          | none => true            -- the read fails (or the column is not readable): nothing is returned
          | some pos => touchVariant fs pos (variantTarget (peelTarget t).1 pos) (unionSlot offs i))
-      | _ => true
+      | a => leafSlotOK a i
 /-- a struct target: every field of the column the target names -/
 def touchNamed : TFields → ArrFields → Nat → Bool
   | _, .nil, _ => true
